@@ -121,6 +121,7 @@ def judge_slice(case, rec):
         rec.nontrivial()
     tkeys = dims[0].keys if len(dims) == 3 else [None]
     for part, tkey in zip(cube.partitions, tkeys):
+        lib.warm(part, case.get("warmup"))
         orc = Oracle(sv, q, table_key=tkey)
         rspecs, cspecs = _specs(part, orc, case)
         pre = {}
